@@ -21,7 +21,7 @@ CONFIGS = {
             "thorough": [("ControllerMC_req.cfg", "edges"), ("ControllerMC_dual.cfg", "edges"), ("ControllerMC_pinmove.cfg", "edges"),
                          ("ControllerMC_dualreq.cfg", "edges"), ("ControllerMC_pin.cfg", "edges"), ("ControllerMC_dual_sim.cfg", "sim")]},
     "C03": {"quick": [("ControllerMC_stable.cfg", "edges"), ("ControllerMC_stable_il.cfg", "edges"), ("ControllerMC_stablefault.cfg", "edges"),
-                      ("ControllerMC_crash3.cfg", "edges"), ("ControllerMC_prefer.cfg", "edges"), ("ControllerMC_localshare.cfg", "edges")],
+                      ("ControllerMC_prefer.cfg", "edges"), ("ControllerMC_localshare.cfg", "edges")],
             "thorough": [("ControllerMC_stable.cfg", "edges"), ("ControllerMC_stable_il.cfg", "edges"), ("ControllerMC_stablefault.cfg", "edges"),
                          ("ControllerMC_crash3.cfg", "edges"), ("ControllerMC_prefer.cfg", "edges"), ("ControllerMC_share.cfg", "edges"),
                          ("ControllerMC_stable_sim.cfg", "sim")]},
@@ -37,6 +37,8 @@ CONFIGS = {
             "thorough": [("ControllerMC_share.cfg", "edges"), ("ControllerMC_crash_sim.cfg", "sim")]},
 }
 SAMPLE = {"quick": 12000, "thorough": None}
+# C03's judge is the most expensive per observation (history conditions): smaller quick sample
+SAMPLE_BY_PROP = {"C03": {"quick": 7000, "thorough": None}}
 SIM = {"num": 8000, "depth": 60}
 
 
@@ -144,7 +146,7 @@ def run_controller(chk):
         else:
             edges, initkeys, res = vlib.generate_edges(chk, "ControllerMC", cfg)
             init_state = dict(json.loads(initkeys[0]), stale=res.extra.get("stale", False))
-            sample = SAMPLE.get(chk.tier)
+            sample = SAMPLE_BY_PROP.get(chk.prop, SAMPLE).get(chk.tier)
             walks, left = vlib.edge_cover_walks(edges, initkeys[0], max_len=60, seed=chk.seed, sample=sample)
             steps = [[edges[i][1] for i in w] for w in walks]
             inits = [init_of(init_state)] * len(walks)
